@@ -134,6 +134,16 @@ META["C15"] = dict(
     assumptions=COMMON_ASSUME + ["_initialize_element returns (symbol, Class) and does not touch the three registry tables"],
 )
 
+META["C06"] = dict(
+    level="other",
+    technique="contracts on the pure-Python cores of file parsing (_split_sweeps: index safety, maximal monotone runs, ordered partition, termination) verified by VC generation from the real AST + z3; the file round trip through open()/pandas over the documented layout cross product is a labelled bounded stand-in",
+    level_text="Proved for every table with >= 1 row: _split_sweeps never indexes out of range, every data set it builds consists of the next rows of the table, is strictly monotone in the table's direction and maximal, pairs each frequency with the impedance of the same row, and the loop terminates. Column detection, cell conversion, the instrument line parsers, pandas.read_csv and file I/O are only explored by the bounded round trip.",
+    level_note="file system, pandas and float parsing/formatting are outside the verifier; DataSet construction is C05's contract",
+    explanation="Obligations from data_set.py:_split_sweeps (loop invariants for the sweep scan and the outer split loop; call-pre obligations at the DataSet constructor). Bounded: real temporary files over the documented conventions and instrument layouts.",
+    trusted_base=["pyvc/npmodel.py (array/zip/map/complex)"],
+    assumptions=COMMON_ASSUME,
+)
+
 NOT_BUILT = "check not built yet in this session (planned, see DESIGN.md section 3)"
 NOT_APPLICABLE = {
     "C10": "statistical calibration over an RNG distribution and heuristic optimisers: no pre/postcondition within reach of a deductive verifier implies it (DESIGN.md C10); sampling would be a different technique family",
@@ -143,4 +153,4 @@ for _p in ["C%02d" % i for i in range(1, 21)]:
     if _p not in META and _p not in NOT_APPLICABLE:
         NOT_APPLICABLE[_p] = NOT_BUILT
 
-FIX_COMMITS = ["0098309", "82df5c9", "ded46ec", "756923f", "8a458bc", "a72c860", "b452482", "d151f47", "9ae2f3a", "8b96fa1", "fbdaf29", "dfe0838", "b53b7ad", "2609bab", "9c2d0e3", "8760cb9", "e53f4fa", "1cd7e3e"]
+FIX_COMMITS = ["0098309", "82df5c9", "ded46ec", "756923f", "8a458bc", "a72c860", "b452482", "d151f47", "9ae2f3a", "8b96fa1", "fbdaf29", "dfe0838", "b53b7ad", "2609bab", "9c2d0e3", "8760cb9", "e53f4fa", "1cd7e3e", "a2ba9a8"]
